@@ -200,6 +200,8 @@ class WSStream:
         self.pongs: List[Union[WSProtoEvent, bytes]] = []
         self.sending_pongs = False
         self.close_after_replies = False
+        self.ping_task = context.single_task_class()
+        self.sending_ping = False
         self.app_put: Optional[Callable] = None
         self.buffer = WebsocketBuffer(config.websocket_max_message_size)
         self.client = client
@@ -287,6 +289,10 @@ class WSStream:
             await self._handle_events()
         elif isinstance(event, StreamClosed):
             self.closed = True
+            if not self.sending_ping:
+                # Otherwise this is (or waits for) the ping task itself,
+                # which ends with the send it is in.
+                await self.ping_task.stop()
             if self.scope is not None and self.state in {
                 ASGIWebsocketState.HANDSHAKE,
                 ASGIWebsocketState.RESPONSE,
@@ -485,7 +491,9 @@ class WSStream:
             raise
         await self._log_access({"status": status_code, "headers": []})
         if self.config.websocket_ping_interval is not None:
-            self.task_group.spawn(self._send_pings)
+            # Stopped when the stream closes, as otherwise it (and with it
+            # the connection) would last until the next ping is due
+            await self.ping_task.restart(self.task_group, self._send_pings)
 
     async def _send_rejection(self, message: WebsocketResponseBodyEvent) -> None:
         body_suppressed = suppress_body("GET", self.response["status"])
@@ -523,5 +531,11 @@ class WSStream:
 
     async def _send_pings(self) -> None:
         while not self.closed:
-            await self._send_wsproto_event(Ping())
+            self.sending_ping = True
+            try:
+                await self._send_wsproto_event(Ping())
+            finally:
+                self.sending_ping = False
+            if self.closed:
+                break  # Whilst sending (e.g. as it could not be sent)
             await self.context.sleep(self.config.websocket_ping_interval)
